@@ -108,3 +108,17 @@ PROPS["C11"] = simple(
                "(harvesting it returns nothing and does not panic). Small scopes enumerated, larger ones sampled.",
     level_note="Trusted: the reference merge and the synthetic source in harness/verifchk/c11; the shim harness/splicer/verif_shim.go only fills the three fields NewSplicer fills.",
 )
+
+PROPS["C12"] = simple(
+    "verifchk/c12", "TestVerifC12", "exploration",
+    "documents from a grammar of inline and block elements in HTML, Markdown (GFM), gemtext and plain text with 0..12 planted links/media (each with a unique "
+    "upper-case label and a unique target; anchors, img/video/audio/iframe, linked images, autolinks, label-less links whose target is displayed), nesting depth "
+    "<= 4, plus 0..5 attachments (Link/Image/Video/Document/Audio, named or not), wrapped as post, actor bio or activity; rendered at width 600 (reference) and "
+    "four PRNG widths in 1..120; SelectLink probed at every displayed number and at 0, -1, N+1, N+2, +-2^31, -N. Non-trivial = at least one link; distinct = item JSON.",
+    shards=dict(quick=8, thorough=16),
+    floor=dict(evaluations=2000, distinct=1000, links_checked=5000),
+    technique="runtime monitor: label -> displayed number -> SelectLink target round trip on generated documents; width-invariance of the label/number sequence",
+    level_text="For every generated item the superscript numbers are read back from the real rendering, must be exactly 1..N, and typing the number shown next to a "
+               "label must return that label's target; numbers outside 1..N must open nothing (and not panic); the sequence of labels and numbers must be the same at every width. Sampled.",
+    level_note="Trusted: the generator's label/target bookkeeping (kit/gen) and the token reader in harness/verifchk/docs. Only well-nested markup with a target on every link-bearing element is generated; nested anchors (invalid HTML) are not.",
+)
